@@ -38,6 +38,9 @@ def cases(tier):
     for ls in multisets_upto(LENGTHS, 4, min_size=1):
         for bi in range(len(BIRTHS)):
             yield {"lengths": list(ls), "births": bi}
+    # barcodes with 6..40 bars and lists of 5..9 diagrams
+    for n in (6, 9, 17, 40):
+        yield {"kind": "medium", "n": n}
 
 
 def mk(lengths, births):
@@ -81,7 +84,31 @@ def must_raise(ctx, sig, what, thunk, extra):
     ctx.violation(sig, "%s: expected an error, got a value" % what, observed=np.asarray(r).tolist(), extra=extra)
 
 
+def run_medium(case, ctx):
+    n = case["n"]
+    ls = [0.25 + ((i * 7) % 11) * 0.5 + (i % 3) * 0.125 for i in range(n)]
+    A = np.array([[float(i % 5) - 2.0, float(i % 5) - 2.0 + l] for i, l in enumerate(ls)])
+    E = OS.entropy(ls)
+    ctx.state(("medium", n))
+    ctx.nontriv("medium_barcode_%d" % n)
+    expect(ctx, "value-medium", pe(ctx, A), [E], "%d bars" % n, {"n": n})
+    expect(ctx, "value-medium", pe(ctx, A[::-1].copy(), normalize=True), [E / math.log(n)], "%d bars reversed, normalized" % n, {"n": n})
+    Ainf = np.vstack([A[: n // 2], [[0.0, INF], [1.0, INF]], A[n // 2:]])
+    expect(ctx, "value-medium", pe(ctx, Ainf), [E], "%d bars + 2 infinite" % n, {"n": n})
+    expect(ctx, "value-medium", pe(ctx, Ainf, keep_inf=True, val_inf=50.0, normalize=True),
+           [OS.entropy(ls + [50.0, 49.0]) / math.log(n + 2)], "%d bars + 2 infinite kept" % n, {"n": n})
+    for k in (5, 9):
+        lst = [A[: 2 + (j * 3) % (n - 1)].copy() for j in range(k)]
+        want = [OS.entropy(ls[: 2 + (j * 3) % (n - 1)]) for j in range(k)]
+        expect(ctx, "value-medium", pe(ctx, lst), want, "list of %d diagrams" % k, {"n": n, "k": k})
+        wn = [w / math.log(2 + (j * 3) % (n - 1)) for j, w in enumerate(want)]
+        expect(ctx, "value-medium", pe(ctx, lst, normalize=True), wn, "list of %d diagrams normalized" % k, {"n": n, "k": k})
+    ctx.outcome(("medium", n, round(E, 9)))
+
+
 def run_case(case, ctx):
+    if case.get("kind") == "medium":
+        return run_medium(case, ctx)
     ls, births = case["lengths"], BIRTHS[case["births"]]
     n = len(ls)
     D = mk(ls, births)
